@@ -384,6 +384,8 @@ def report_getter(ctx, clause, e, origin):
         ','.join('%s=%s' % (k, v / 1000.0 if k in ('min', 'max') and e['call']['kind'] == 'float' else v)
                  for k, v in e['call'].items() if v and k != 'kind'),
         e['res'], e.get('shown', ''), e['vs'], e['stored'], e['exc'])
+    if clause.startswith('H:'):
+        raise MachineryError('judge rejected harness input: %s %s' % (clause, what))
     if clause.startswith('D:'):
         ctx.detail(clause, case, what)
     else:
